@@ -95,10 +95,19 @@ structure Fix where
   k13 : Bool    -- igmp: `if len(self.extra) < 8: return None` before each group record
   k14 : Bool    -- igmp group record: a truncated source list ends the list
   k16 : Bool    -- dhcp: `self.options` exists before the early returns
+  k1 : Bool     -- nesting guard (fixes/C15-K1_nesting_guard.diff): `packet_base._nesting()` = length of the `prev` chain; at
+                -- `MAX_NESTING` headers `ethernet.parse_next`, `ipv4.parse`, `ipv6.parse` keep the payload as bytes; gre and vxlan
+                -- hand `prev=self` to the constructor they call (so the chain is not reset there)
   deriving DecidableEq, Repr
 
-def Fix.none : Fix := ⟨false, false, false, false, false, false, false, false, false⟩
-def Fix.all : Fix := ⟨true, true, true, true, true, true, true, true, true⟩
+def Fix.none : Fix := ⟨false, false, false, false, false, false, false, false, false, false⟩
+/-- the K5 … K16 repairs (what /repo HEAD has since phase 3), without the nesting guard -/
+def Fix.all : Fix := ⟨true, true, true, true, true, true, true, true, true, false⟩
+/-- all repairs including the nesting guard K1 -/
+def Fix.full : Fix := { Fix.all with k1 := true }
+
+/-- `packet_base.MAX_NESTING` of the K1 repair -/
+def nestCap : Nat := 32
 
 /-- is the raise at `s` repaired? -/
 def Fix.fixed (fx : Fix) : Site → Bool
@@ -386,8 +395,9 @@ def orgL : Layout := [.blob 3, .uint 1]                     -- '3sB'
 /-! ## `parse(raw)` of each class; the recursive constructor call is `next` -/
 
 /-- ethernet.py:130-138 `parse_next` -/
-def parseNext (cfg : Cfg) (next : K → Bytes → P Frame) (typelen : Nat) (rest : Bytes) (allowLlc : Bool := true) : P Frame :=
-  if typelen = 0x8100 then next .vlan rest
+def parseNext (cfg : Cfg) (guard : Bool) (next : K → Bytes → P Frame) (typelen : Nat) (rest : Bytes) (allowLlc : Bool := true) : P Frame :=
+  if guard then pure (.raw rest)                                              -- K1: `prev._nesting() + 1 >= MAX_NESTING`
+  else if typelen = 0x8100 then next .vlan rest
   else if typelen = 0x0806 ∨ typelen = 0x8035 then next .arp rest
   else if typelen = 0x0800 then next .ipv4 rest
   else if typelen = 0x86dd then (if cfg.ext then next .ipv6 rest else pure (.foreign "ipv6" rest))
@@ -398,22 +408,22 @@ def parseNext (cfg : Cfg) (next : K → Bytes → P Frame) (typelen : Nat) (rest
   else pure (.raw rest)
 
 /-- ethernet.py:110-128 -/
-def ethParse (cfg : Cfg) (next : K → Bytes → P Frame) (raw : Bytes) : P Frame :=
+def ethParse (cfg : Cfg) (guard : Bool) (next : K → Bytes → P Frame) (raw : Bytes) : P Frame :=
   if raw.length < 14 then pure (.unparsed "ethernet" raw) else
   match unpackE ethL (raw.take 14) with
   | .ok [.raw dst, .raw src, .num type] =>
-    match parseNext cfg next type (raw.drop 14) with
+    match parseNext cfg guard next type (raw.drop 14) with
     | .ok n => pure (.eth ⟨dst, src, type⟩ raw n)
     | .error e => .error e
   | .ok _ => .error .struct
   | .error e => .error e
 
 /-- vlan.py:66-82 (with D13, already in HEAD) -/
-def vlanParse (cfg : Cfg) (next : K → Bytes → P Frame) (raw : Bytes) : P Frame :=
+def vlanParse (cfg : Cfg) (guard : Bool) (next : K → Bytes → P Frame) (raw : Bytes) : P Frame :=
   if raw.length < 4 then pure (.unparsed "vlan" raw) else
   match unpackE vlanL (raw.take 4) with
   | .ok [.num pcpid, .num ethType] =>
-    match parseNext cfg next ethType (raw.drop 4) with
+    match parseNext cfg guard next ethType (raw.drop 4) with
     | .ok n => pure (.vlan ⟨pcpid / 8192, (pcpid / 4096) % 2, pcpid % 4096, ethType⟩ raw n)
     | .error e => .error e
   | .ok _ => .error .struct
@@ -422,7 +432,7 @@ def vlanParse (cfg : Cfg) (next : K → Bytes → P Frame) (raw : Bytes) : P Fra
 def llcDefault : Llc := ⟨none, none, none, 3, none, 0xffff⟩
 
 /-- the SNAP part and the payload dispatch of llc.py:87-105; `length` is 3 or 4 -/
-def llcTail (cfg : Cfg) (next : K → Bytes → P Frame) (raw : Bytes) (dsap ssap control length : Nat) : P Frame :=
+def llcTail (cfg : Cfg) (guard : Bool) (next : K → Bytes → P Frame) (raw : Bytes) (dsap ssap control length : Nat) : P Frame :=
   let plain : Llc := ⟨some dsap, some ssap, some control, length, none, 0xffff⟩
   if ssap &&& 0xfe = 0xaa ∧ dsap &&& 0xfe = 0xaa then
     if raw.length < length + 5 then pure (.llc plain false raw .nil) else
@@ -431,7 +441,7 @@ def llcTail (cfg : Cfg) (next : K → Bytes → P Frame) (raw : Bytes) (dsap ssa
     | .ok [.num ethType] =>
       let h : Llc := ⟨some dsap, some ssap, some control, length + 5, some oui, ethType⟩
       if oui = [0, 0, 0] then
-        match parseNext cfg next ethType (raw.drop (length + 5)) false with
+        match parseNext cfg guard next ethType (raw.drop (length + 5)) false with
         | .ok n => pure (.llc h true raw n)
         | .error e => .error e
       else pure (.llc h true raw (.raw (raw.drop (length + 5))))
@@ -440,16 +450,16 @@ def llcTail (cfg : Cfg) (next : K → Bytes → P Frame) (raw : Bytes) (dsap ssa
   else pure (.llc plain true raw (.raw (raw.drop length)))
 
 /-- llc.py:63-105 -/
-def llcParse (cfg : Cfg) (next : K → Bytes → P Frame) (raw : Bytes) : P Frame :=
+def llcParse (cfg : Cfg) (guard : Bool) (next : K → Bytes → P Frame) (raw : Bytes) : P Frame :=
   if raw.length < 3 then pure (.llc llcDefault false raw .nil) else
   match unpackE llcL (raw.take 3) with
   | .ok [.num dsap, .num ssap, .num c0] =>
     if c0 % 2 = 0 ∨ c0 % 4 = 2 then
       if raw.length < 4 then pure (.llc ⟨some dsap, some ssap, some c0, 3, none, 0xffff⟩ false raw .nil) else
       match ordE (sl raw 3 4) with
-      | .ok b => llcTail cfg next raw dsap ssap (c0 ||| (b <<< 8)) 4
+      | .ok b => llcTail cfg guard next raw dsap ssap (c0 ||| (b <<< 8)) 4
       | .error e => .error e
-    else llcTail cfg next raw dsap ssap c0 3
+    else llcTail cfg guard next raw dsap ssap c0 3
   | .ok _ => .error .struct
   | .error e => .error e
 
@@ -473,8 +483,8 @@ def isUnparsed : Frame → Bool
 
 /-- ipv4.py:147-173: which constructor gets the payload (`short` = `dlen < self.iplen`); an object whose parse gave up
 is replaced by the bytes (ipv4.py:172-173) -/
-def ipv4Dispatch (cfg : Cfg) (next : K → Bytes → P Frame) (frag proto : Nat) (body : Bytes) (short : Bool) : P Frame :=
-  if frag ≠ 0 then pure (.raw body)
+def ipv4Dispatch (cfg : Cfg) (guard : Bool) (next : K → Bytes → P Frame) (frag proto : Nat) (body : Bytes) (short : Bool) : P Frame :=
+  if frag ≠ 0 ∨ guard = true then pure (.raw body)                            -- K1: `or self._nesting() >= self.MAX_NESTING`
   else if proto = 17 ∨ proto = 6 ∨ proto = 1 ∨ (cfg.ext = true ∧ (proto = 2 ∨ proto = 47)) then
     match next (if proto = 17 then .udp else if proto = 6 then .tcp else if proto = 1 then .icmp
                 else if proto = 2 then .igmp else .gre) body with
@@ -486,7 +496,7 @@ def ipv4Dispatch (cfg : Cfg) (next : K → Bytes → P Frame) (frag proto : Nat)
   else pure (.raw body)
 
 /-- ipv4.py:92-173 -/
-def ipv4Parse (cfg : Cfg) (next : K → Bytes → P Frame) (raw : Bytes) : P Frame :=
+def ipv4Parse (cfg : Cfg) (guard : Bool) (next : K → Bytes → P Frame) (raw : Bytes) : P Frame :=
   let dlen := raw.length
   if dlen < 20 then pure (.unparsed "ipv4" raw) else
   match unpackE ipv4L (raw.take 20) with
@@ -504,7 +514,7 @@ def ipv4Parse (cfg : Cfg) (next : K → Bytes → P Frame) (raw : Bytes) : P Fra
       let opts := sl raw 20 (hl * 4)
       let length := if iplen > dlen then dlen else iplen
       let body := sl raw (hl * 4) length
-      match ipv4Dispatch cfg next frag proto body (decide (dlen < iplen)) with
+      match ipv4Dispatch cfg guard next frag proto body (decide (dlen < iplen)) with
       | .ok n => pure (.ipv4 ⟨v, hl, tos, iplen, id, flags, frag, ttl, proto, csum, src, dst, opts⟩ raw n)
       | .error e => .error e
   | .ok _ => .error .struct
@@ -1067,7 +1077,7 @@ def extLoop (fx : Fix) (v : Var) (raw : Bytes) : Nat → Nat → Nat → Nat →
     else pure (some (nht, offset, length, acc))
 
 /-- ipv6.py:326-395 -/
-def ipv6Parse (fx : Fix) (vr : Var) (next : K → Bytes → P Frame) (raw : Bytes) : P Frame :=
+def ipv6Parse (fx : Fix) (vr : Var) (guard : Bool) (next : K → Bytes → P Frame) (raw : Bytes) : P Frame :=
   if raw.length < 40 then pure (.unparsed "ipv6" raw) else
   match unpackE ipv6L (raw.take 8) with
   | .ok [.num vtcfl, .num plen, .num nh0, .num hop] =>
@@ -1085,7 +1095,8 @@ def ipv6Parse (fx : Fix) (vr : Var) (next : K → Bytes → P Frame) (raw : Byte
       let h : IPv6 := ⟨v, (vtcfl / 1048576) % 256, vtcfl % 1048576, plen, nh0, hop, src, dst, exts⟩
       let body := sl raw offset (offset + length)
       let r : P Frame :=
-        if nht = 17 then next .udp body
+        if guard then pure (.raw body)                                        -- K1: nested too deeply
+        else if nht = 17 then next .udp body
         else if nht = 6 then next .tcp body
         else if nht = 58 then next (.icmp6 src dst) body
         else if nht = 59 then pure .nil
@@ -1353,40 +1364,51 @@ def igmpParse (fx : Fix) (raw : Bytes) : P Frame :=
 
 /-! ## the whole chain -/
 
-/-- class `k`'s constructor applied to `raw` with `d` nested constructor activations still available -/
-def parseD (cfg : Cfg) : Nat → K → Bytes → P Frame
-  | 0, _, _ => .error .recursion
-  | d+1, k, raw =>
+/-- what a guarded dispatch does instead of calling a constructor: the payload stays bytes -/
+def blocked : K → Bytes → P Frame := fun _ b => pure (.raw b)
+
+/-- class `k`'s constructor applied to `raw` with `d` nested constructor activations still available; `depth` is the length of
+the object's `prev` chain (`_nesting()`): constructors called with `prev=self` are one deeper, the ones called without `prev`
+(mpls; vxlan and gre before the K1 repair) start a new chain.  With the K1 repair `ethernet.parse_next` (used by ethernet, vlan,
+llc) keeps the payload as bytes when `prev._nesting() + 1 ≥ MAX_NESTING`, `ipv4.parse` / `ipv6.parse` when `self._nesting() ≥
+MAX_NESTING`. -/
+def parseD (cfg : Cfg) : Nat → Nat → K → Bytes → P Frame
+  | 0, _, _, _ => .error .recursion
+  | d+1, depth, k, raw =>
+    let next := parseD cfg d (depth + 1)
+    let top := parseD cfg d 0
+    let g1 : Bool := cfg.fix.k1 && decide (nestCap ≤ depth + 1)
+    let g0 : Bool := cfg.fix.k1 && decide (nestCap ≤ depth)
     match k with
-    | .eth => ethParse cfg (parseD cfg d) raw
-    | .vlan => vlanParse cfg (parseD cfg d) raw
-    | .llc => llcParse cfg (parseD cfg d) raw
+    | .eth => ethParse cfg g1 (if g1 then blocked else next) raw
+    | .vlan => vlanParse cfg g1 (if g1 then blocked else next) raw
+    | .llc => llcParse cfg g1 (if g1 then blocked else next) raw
     | .arp => arpParse raw
-    | .ipv4 => ipv4Parse cfg (parseD cfg d) raw
-    | .udp => udpParse cfg (parseD cfg d) raw
+    | .ipv4 => ipv4Parse cfg g0 (if g0 then blocked else next) raw
+    | .udp => udpParse cfg next raw
     | .tcp => tcpParse cfg raw
-    | .icmp => icmpParse (parseD cfg d) raw
+    | .icmp => icmpParse next raw
     | .echo => echoParse raw
-    | .unreach => unreachParse (parseD cfg d) raw
-    | .timeEx => timeExParse (parseD cfg d) raw
+    | .unreach => unreachParse next raw
+    | .timeEx => timeExParse next raw
     | .lldp => lldpParse cfg raw
-    | .mpls => mplsParse (parseD cfg d) raw
-    | .eapol => eapolParse (parseD cfg d) raw
+    | .mpls => mplsParse top raw
+    | .eapol => eapolParse next raw
     | .eap => eapParse cfg.var raw
-    | .vxlan => vxlanParse (parseD cfg d) raw
+    | .vxlan => vxlanParse (if cfg.fix.k1 then next else top) raw
     | .rip => ripParse cfg.var raw
     | .dns => dnsParse cfg.var raw
-    | .ipv6 => ipv6Parse cfg.fix cfg.var (parseD cfg d) raw
-    | .icmp6 s t => icmp6Parse cfg.fix s t (parseD cfg d) raw
+    | .ipv6 => ipv6Parse cfg.fix cfg.var g0 (if g0 then blocked else next) raw
+    | .icmp6 s t => icmp6Parse cfg.fix s t next raw
     | .echo6 => echo6Parse raw
-    | .unreach6 => unreach6Parse (parseD cfg d) raw
-    | .gre => greParse cfg.fix (parseD cfg d) raw
+    | .unreach6 => unreach6Parse next raw
+    | .gre => greParse cfg.fix (if cfg.fix.k1 then next else top) raw
     | .igmp => igmpParse cfg.fix raw
     | .dhcp => dhcpParse cfg.fix raw
 
 /-- `ethernet(raw=bs)` with `d` nested activations available (`PacketIn.parsed` is exactly this call,
 openflow/__init__.py:182-185) -/
-def parseEthernet (cfg : Cfg) (d : Nat) (bs : Bytes) : P Frame := parseD cfg d .eth bs
+def parseEthernet (cfg : Cfg) (d : Nat) (bs : Bytes) : P Frame := parseD cfg d 0 .eth bs
 
 /-- a nesting budget that never runs out for `bs` (theorem `parse_total`) -/
 def budget (bs : Bytes) : Nat := bs.length / 4 + 1
